@@ -17,6 +17,7 @@ import (
 	"fmt"
 	"go/token"
 	"go/types"
+	"math/big"
 	"strconv"
 	"strings"
 
@@ -50,12 +51,13 @@ type gsched struct {
 	rcount map[*Cell]int
 	sbuf   map[*Cell]*strings.Builder
 	pools  map[*Cell][]Value
+	smaps  map[*Cell]*MapV // sync.Map objects
 }
 
 func (ex *Exec) schedReset() {
 	ex.schedStop()
 	main := &gstate{resume: make(chan struct{}, 1)}
-	ex.sch = &gsched{gs: []*gstate{main}, cur: main, wg: map[*Cell]int{}, locked: map[*Cell]bool{}, rcount: map[*Cell]int{}, sbuf: map[*Cell]*strings.Builder{}, pools: map[*Cell][]Value{}}
+	ex.sch = &gsched{gs: []*gstate{main}, cur: main, wg: map[*Cell]int{}, locked: map[*Cell]bool{}, rcount: map[*Cell]int{}, sbuf: map[*Cell]*strings.Builder{}, pools: map[*Cell][]Value{}, smaps: map[*Cell]*MapV{}}
 }
 
 // schedStop unwinds every interpreted goroutine that is still parked (end of a path).
@@ -420,6 +422,55 @@ func init() {
 		return nil
 	})
 
+	// sync.Map: one MapV per object; keys are compared the way Go compares interface values (dynamic type
+	// and ==: +0 and -0 are one key, NaN is never found); symbolic keys end the path as unsupported
+	smap := func(ex *Exec, a []Value) *MapV {
+		c := cellArg(a)
+		m := ex.sch.smaps[c]
+		if m == nil {
+			m = &MapV{m: map[interface{}]Value{}}
+			ex.sch.smaps[c] = m
+		}
+		return m
+	}
+	add("(*sync.Map).Load", func(ex *Exec, _ *ssa.Function, a []Value, _ ssa.Instruction) Value {
+		v, ok := smap(ex, a).m[ex.anyKey(a[1])]
+		if !ok {
+			return Tuple{nil, false}
+		}
+		return Tuple{v, true}
+	})
+	add("(*sync.Map).Store", func(ex *Exec, _ *ssa.Function, a []Value, _ ssa.Instruction) Value {
+		m, k := smap(ex, a), ex.anyKey(a[1])
+		if _, ok := m.m[k]; !ok {
+			m.keys = append(m.keys, k)
+		}
+		m.m[k] = a[2]
+		return nil
+	})
+	add("(*sync.Map).LoadOrStore", func(ex *Exec, _ *ssa.Function, a []Value, _ ssa.Instruction) Value {
+		m, k := smap(ex, a), ex.anyKey(a[1])
+		if v, ok := m.m[k]; ok {
+			return Tuple{v, true}
+		}
+		m.keys = append(m.keys, k)
+		m.m[k] = a[2]
+		return Tuple{a[2], false}
+	})
+	add("(*sync.Map).Delete", func(ex *Exec, _ *ssa.Function, a []Value, _ ssa.Instruction) Value {
+		m, k := smap(ex, a), ex.anyKey(a[1])
+		if _, ok := m.m[k]; ok {
+			delete(m.m, k)
+			for i, kk := range m.keys {
+				if kk == k {
+					m.keys = append(m.keys[:i:i], m.keys[i+1:]...)
+					break
+				}
+			}
+		}
+		return nil
+	})
+
 	// runtime / time
 	add("runtime.GOMAXPROCS", func(*Exec, *ssa.Function, []Value, ssa.Instruction) Value { return int64(4) })
 	add("runtime.NumCPU", func(*Exec, *ssa.Function, []Value, ssa.Instruction) Value { return int64(4) })
@@ -587,4 +638,57 @@ func init() {
 		}
 		return "<bool>"
 	})
+}
+
+// anyKey is the canonical key of a comparable Go value held in an interface (sync.Map keys).
+func (ex *Exec) anyKey(v Value) interface{} {
+	ex.nanKeys++
+	var enc func(v Value) string
+	enc = func(v Value) string {
+		v = ex.normInt(v)
+		switch k := v.(type) {
+		case nil:
+			return "nil"
+		case Iface:
+			return k.t.String() + ":" + enc(k.v)
+		case StructV:
+			s := "{"
+			for _, f := range k {
+				s += enc(f) + ","
+			}
+			return s + "}"
+		case ArrayV:
+			s := "["
+			for _, f := range k {
+				s += enc(f) + ","
+			}
+			return s + "]"
+		case string:
+			return strconv.Quote(k)
+		case int64:
+			return strconv.FormatInt(k, 10)
+		case bool:
+			return strconv.FormatBool(k)
+		case *Cell:
+			return fmt.Sprintf("%p", k)
+		case *Term:
+			return strconv.FormatInt(ex.concretise(k, "sync.Map key"), 10)
+		case F:
+			switch k.T.op {
+			case "rconst":
+				return "r" + k.T.rat.RatString()
+			case "fconst":
+				f := k.T.f64()
+				if f != f {
+					return "nan#" + strconv.Itoa(ex.nanKeys) // never equal to any key
+				}
+				if f == 0 {
+					return "r0" // +0 == -0
+				}
+				return "r" + new(big.Rat).SetFloat64(f).RatString()
+			}
+		}
+		panic(&GoPanic{Kind: "unsupported", Msg: fmt.Sprintf("sync.Map key with a symbolic or non-comparable component %T", v)})
+	}
+	return enc(v)
 }
